@@ -148,11 +148,12 @@ def run_c16(ctx, fa):
     vals = gen_values(rnd, n, not ctx.quick())
     cases = [logical_case(fa, "l%d" % i, s, v) for i, (s, v) in enumerate(vals)]
     # aware datetimes mean the same instant whatever the zone of the process: the same kind of cases once more with the process in a zone
-    # three hours off UTC (naive values are left out there: their meaning is the local zone's)
+    # three hours off UTC; the local-timestamp types (wall-clock values, no zone involved) come along; naive values under the
+    # timestamp types are left out there (their meaning is the local zone's)
     import os
     import time
     aware = [(s_, v) for s_, v in gen_values(ctx.sub_rnd("c16tz"), n // 2, False)
-             if isinstance(v, datetime.datetime) and v.tzinfo is not None]
+             if isinstance(v, datetime.datetime) and (v.tzinfo is not None or "local" in str(s_.get("logicalType", "")))]
     old_tz = os.environ.get("TZ")
     try:
         os.environ["TZ"] = "XST-3"
